@@ -83,7 +83,9 @@ def reparse_if_needed(student_code=None, report=MAIN_REPORT):
             cait['success'] = cait['error'] is None
             return cait
         # Try to steal parse from Source module, if available
-        if report[SOURCE_TOOL_NAME]['success']:
+        # (the Source tool may have verified another text since, or moved to another section)
+        if (report[SOURCE_TOOL_NAME]['success'] and report[SOURCE_TOOL_NAME]['ast'] is not None
+                and report[SOURCE_TOOL_NAME].get('ast_code') == student_code):
             student_ast = report[SOURCE_TOOL_NAME]['ast']
             cait['success'], cait['error'] = True, None
         else:
